@@ -828,6 +828,31 @@ def rule_e9(chk: Check, ix: Index, rule_id: str = "E9-error-arity"):
     chk.floor(rule_id, 2)
 
 
+def _one_char_guarded(fn: ast.FunctionDef, call: ast.Call) -> bool:
+    """`ord(X)` after a top-level `if [.. or] X not in (<one-character constants>) [or ..]: <raise>` with X not rebound in between."""
+    t = norm_stmt(call.args[0])
+    names = {x.id for x in ast.walk(call.args[0]) if isinstance(x, ast.Name)}
+    at = next((i for i, st in enumerate(fn.body) if any(x is call for x in ast.walk(st))), None)
+    if at is None or not names:
+        return False
+    for i in range(at - 1, -1, -1):
+        st = fn.body[i]
+        if isinstance(st, ast.If) and not st.orelse:
+            tests = st.test.values if isinstance(st.test, ast.BoolOp) and isinstance(st.test.op, ast.Or) else [st.test]
+            hit = any(isinstance(x, ast.Compare) and len(x.ops) == 1 and isinstance(x.ops[0], ast.NotIn) and norm_stmt(x.left) == t
+                      and isinstance(x.comparators[0], (ast.Tuple, ast.List, ast.Set)) and x.comparators[0].elts
+                      and all(isinstance(e, ast.Constant) and isinstance(e.value, str) and len(e.value) == 1 for e in x.comparators[0].elts)
+                      for x in tests)
+            last = st.body[-1]
+            leaves = isinstance(last, ast.Raise) or (isinstance(last, ast.Expr) and isinstance(last.value, ast.Call)
+                                                     and norm_stmt(last.value.func).startswith("self.raise_"))
+            if hit and leaves:
+                return True
+        if any(isinstance(x, ast.Name) and x.id in names and not isinstance(x.ctx, ast.Load) for x in ast.walk(st)):
+            return False
+    return False
+
+
 def rule_e8(chk: Check, ix: Index):
     """E8: builtin conversions applied to text of the input (int(), float(), complex(), chr(), bytes.fromhex, ...) raise
     ValueError/OverflowError on inputs the tokenizer accepts (a 5000-digit literal exceeds the int<->str limit); such a call must
@@ -841,6 +866,12 @@ def rule_e8(chk: Check, ix: Index):
         for c in own_nodes(f.node):
             if isinstance(c, ast.Call) and norm_stmt(c.func) in RISKY and c.args and not all(isinstance(a, ast.Constant) for a in c.args):
                 if isinstance(c.args[0], ast.Call) and norm_stmt(c.args[0].func) == "isinstance":
+                    continue
+                if norm_stmt(c.func) == "ord" and len(c.args) == 1 and _one_char_guarded(f.node, c):
+                    n += 1
+                    chk.count("E8-conversion-call")
+                    chk.ok("E8-conversion-call", f"{q}:{norm_stmt(c)[:50]}", f"{f.rel}:{c.lineno}",
+                           "the argument was tested to be one of a set of one-character strings, the other case raises")
                     continue
                 n += 1
                 chk.count("E8-conversion-call")
